@@ -66,17 +66,45 @@ Theorem C06_quote_nests_paragraph :
 Proof. exact quote_nests_paragraph. Qed.
 Print Assumptions C06_quote_nests_paragraph.
 
-(* the nested block loop on a line that begins at an offset inside the source (what it sees once a container
-   has moved bMarks / bsCount): one paragraph with the characters from the offset on, at the container's level *)
+(* the nested block loop on a line that begins at an offset inside the source - what it sees once containers have
+   moved bMarks past pre1 (block quote markers) and masked pre2 through tShift / sCount / blkIndent (a list marker
+   and its blanks, tab-free): one paragraph with the characters from the offset on, at the container's level *)
 Theorem C06_nested_loop_on_shifted_line :
-  forall cfg rf cf pre s bs lv, line_ok s ->
+  forall cfg rf cf pre1 pre2 s bs li lv, line_ok s -> (forall x, In x pre2 -> x <> 9) ->
   forall rpre rpost, c_rules cfg = rpre ++ nm_paragraph :: rpost ->
     Forall (fun n => str_eqb n nm_paragraph = false) rpre -> lv < c_maxNesting cfg ->
-  forall d st, off_line st pre s bs lv -> b_line st = 0 ->
+  forall d st, off_line st pre1 pre2 s bs li lv -> b_line st = 0 ->
   exists st', tokenize cfg rf cf (S d) st 0 1 = Ok st'
-    /\ off_line st' pre s bs lv /\ b_tokens st' = b_tokens st ++ para_tokens s lv /\ b_env st' = b_env st /\ b_line st' = 1.
+    /\ off_line st' pre1 pre2 s bs li lv /\ b_tokens st' = b_tokens st ++ para_tokens s lv /\ b_env st' = b_env st /\ b_line st' = 1
+    /\ b_tight st' = true.
 Proof. exact tokenize_off_line. Qed.
 Print Assumptions C06_nested_loop_on_shifted_line.
+
+(* ---- the list item law, on one-line paragraph documents ----
+   Same class of lines; every configuration whose block chain reaches the list rule through table / code / fence /
+   blockquote / hr only and has the paragraph rule: parse("- " s LF) is a one-item tight bullet list whose item contains
+   the tokens of parse(s LF) two levels deeper - same maps, same inline content, same children - with the paragraph
+   tokens hidden (the property's "modulo the tight-list hidden flag").  The list rule is run symbolically: marker scans,
+   item loop, tShift / sCount / blkIndent rewrite, nested block loop, restores, map patches, markTightParagraphs. *)
+Theorem C06_item_nests_paragraph :
+  forall cfg rf cf lt s, line_ok s -> mem_z 13 s = false -> mem_z 0 s = false ->
+  forall rpre rpost, c_rules (p_block cfg) = rpre ++ nm_paragraph :: rpost ->
+    Forall (fun n => str_eqb n nm_paragraph = false) rpre ->
+  forall bpre bpost, c_rules (p_block cfg) = bpre ++ nm_list :: bpost ->
+    Forall (fun n => n = nm_table \/ n = nm_code \/ n = nm_fence \/ n = nm_blockquote \/ n = nm_hr) bpre ->
+    2 < c_maxNesting (p_block cfg) ->
+    p_core cfg = [n_normalize; n_block; n_inline; n_text_join] ->
+  forall env,
+    parse cfg rf cf lt (s ++ [10]) env
+    = (do toks <- inline_parse (p_inline cfg) rf cf lt s env [];
+       Ok ([p_open; set_children (p_inl s) (Some (join_children toks)); p_close], env))
+    /\ parse cfg rf cf lt ([45; 32] ++ s ++ [10]) env
+    = (do toks <- inline_parse (p_inline cfg) rf cf lt s env [];
+       Ok (ul_open_tok :: li_open_tok
+           :: hide_para (map deeper2 [p_open; set_children (p_inl s) (Some (join_children toks)); p_close])
+           ++ [li_close_tok; ul_close_tok], env)).
+Proof. exact item_nests_paragraph. Qed.
+Print Assumptions C06_item_nests_paragraph.
 
 Example C06_quote_hypotheses_met :
   line_ok [102; 111; 111; 32; 42; 98; 42]
